@@ -23,8 +23,14 @@
 //        event logger uses), starts a mock WireServer + IMDS on 127.0.0.1:<ephemeral>, runs
 //        EventReader::start(1 h, Some("127.0.0.1"), Some(port)) on a current_thread runtime with
 //        the tokio clock PAUSED (the 15 s retry sleeps and the 1 h interval cost no wall time),
-//        until the reader begins its second iteration (second goal-state request, which the
-//        mock never answers), then cancels it.
+//        until the reader begins its second iteration (second goal-state request, held by the
+//        mock until the snapshot is taken), then cancels it.  The mock is a raw-TCP HTTP/1.1
+//        server: an answer may also be {"status":200,"fault":"cut_body"|"head_only"|"cut_chunked"}
+//        (complete response head, body cut off: the host HAS accepted the batch).
+//        "cancel":{"at":"arrival"|"answer"|"sleep","n":i,"delay_s":d} fires the reader's
+//        cancellation token (service stop) when telemetry POST #i arrives / is answered / d virtual
+//        seconds after its answer; the result then covers everything the mock received until
+//        start() has returned plus 120 virtual seconds.
 //        -> every telemetry POST in order (body saved to <dir>/../posts/<n>.bin, length,
 //           checksum, content type, the status answered), the directory listing afterwards,
 //           the VmMetaData the reader obtained
@@ -36,12 +42,6 @@ use gpa::shared_state::key_keeper_wrapper::KeyKeeperSharedState;
 use gpa::shared_state::telemetry_wrapper::TelemetrySharedState;
 use gpa::telemetry::event_reader::{EventReader, VmMetaData};
 use gpa::telemetry::telemetry_event::{KeywordName, TelemetryData, TelemetryEvent};
-use http_body_util::{BodyExt, Full};
-use hyper::body::Bytes;
-use hyper::server::conn::http1;
-use hyper::service::service_fn;
-use hyper::{Request, Response, StatusCode};
-use hyper_util::rt::TokioIo;
 use proxy_agent_shared::misc_helpers;
 use proxy_agent_shared::telemetry::Event;
 use serde_json::{json, Value};
@@ -175,80 +175,239 @@ struct MockState {
     other_requests: Vec<String>,
     posts_dir: PathBuf,
     port: u16,
+    cancel_spec: Value,
+    cancel_fired_at_post: Option<usize>,
 }
 
 type Shared = Arc<Mutex<MockState>>;
 
-async fn handle(
+struct Ctl {
     st: Shared,
     second_iteration: Arc<tokio::sync::Notify>,
-    req: Request<hyper::body::Incoming>,
-) -> Result<Response<Full<Bytes>>, std::io::Error> {
+    released: CancellationToken,   // set by the driver once the snapshot is taken
+    reader_cancel: CancellationToken, // the token handed to EventReader::new
+}
+
+struct Req {
+    method: String,
+    target: String,
+    headers: Vec<(String, String)>,
+    body: Vec<u8>,
+}
+
+fn find(hay: &[u8], needle: &[u8]) -> Option<usize> {
+    hay.windows(needle.len()).position(|w| w == needle)
+}
+
+/// one HTTP/1.1 request from a raw connection (the agent opens a connection per request)
+async fn read_request(stream: &mut tokio::net::TcpStream) -> Option<Req> {
+    use tokio::io::AsyncReadExt;
+    let mut buf: Vec<u8> = Vec::new();
+    let mut tmp = vec![0u8; 65536];
+    let head_end = loop {
+        if let Some(p) = find(&buf, b"\r\n\r\n") {
+            break p;
+        }
+        let n = stream.read(&mut tmp).await.ok()?;
+        if n == 0 {
+            return None;
+        }
+        buf.extend_from_slice(&tmp[..n]);
+    };
+    let head = String::from_utf8_lossy(&buf[..head_end]).to_string();
+    let mut lines = head.split("\r\n");
+    let mut first = lines.next()?.split(' ');
+    let method = first.next()?.to_string();
+    let target = first.next()?.to_string();
+    let headers: Vec<(String, String)> = lines
+        .filter_map(|l| l.split_once(':').map(|(a, b)| (a.trim().to_lowercase(), b.trim().to_string())))
+        .collect();
+    let get = |n: &str| headers.iter().find(|(k, _)| k == n).map(|(_, v)| v.clone());
+    let mut rest: Vec<u8> = buf[head_end + 4..].to_vec();
+    let mut body = Vec::new();
+    if let Some(cl) = get("content-length").and_then(|v| v.parse::<usize>().ok()) {
+        while rest.len() < cl {
+            let n = stream.read(&mut tmp).await.ok()?;
+            if n == 0 {
+                return None;
+            }
+            rest.extend_from_slice(&tmp[..n]);
+        }
+        body = rest[..cl].to_vec();
+    } else if get("transfer-encoding").map(|v| v.to_lowercase().contains("chunked")).unwrap_or(false) {
+        loop {
+            let line_end = loop {
+                if let Some(p) = find(&rest, b"\r\n") {
+                    break p;
+                }
+                let n = stream.read(&mut tmp).await.ok()?;
+                if n == 0 {
+                    return None;
+                }
+                rest.extend_from_slice(&tmp[..n]);
+            };
+            let size_txt = String::from_utf8_lossy(&rest[..line_end]).to_string();
+            let size = usize::from_str_radix(size_txt.split(';').next().unwrap_or("").trim(), 16).ok()?;
+            rest.drain(..line_end + 2);
+            while rest.len() < size + 2 {
+                let n = stream.read(&mut tmp).await.ok()?;
+                if n == 0 {
+                    return None;
+                }
+                rest.extend_from_slice(&tmp[..n]);
+            }
+            if size == 0 {
+                break;
+            }
+            body.extend_from_slice(&rest[..size]);
+            rest.drain(..size + 2);
+        }
+    }
+    Some(Req { method, target, headers, body })
+}
+
+fn complete_response(code: u64, ctype: &str, body: &[u8]) -> Vec<u8> {
+    let mut out = format!(
+        "HTTP/1.1 {} Scripted\r\nContent-Type: {}\r\nContent-Length: {}\r\nConnection: close\r\n\r\n",
+        code,
+        ctype,
+        body.len()
+    )
+    .into_bytes();
+    out.extend_from_slice(body);
+    out
+}
+
+/// the bytes the scripted telemetry answer puts on the wire (None = close without a response).
+/// An answer is a status code, "drop", or {"status":code,"body":text,"fault":kind}: with a fault the
+/// response HEAD is complete (the host has answered, a 2xx counts as accepted) but the body is not:
+///   cut_body    Content-Length announces more than is sent, then the connection is closed
+///   head_only   Content-Length > 0, no body byte at all, connection closed
+///   cut_chunked chunked body, one chunk, closed before the terminating chunk
+fn telemetry_answer_bytes(answer: &Value) -> Option<Vec<u8>> {
+    if let Some(code) = answer.as_u64() {
+        return Some(complete_response(code, "text/plain", b""));
+    }
+    if answer.is_string() {
+        return None;
+    }
+    let code = answer["status"].as_u64().unwrap_or(200);
+    let body = text(&answer["body"]);
+    let body = if body.is_empty() { "accepted by the mock host".to_string() } else { body };
+    match answer["fault"].as_str() {
+        None => Some(complete_response(code, "text/plain", body.as_bytes())),
+        Some("cut_body") => {
+            let mut out = format!(
+                "HTTP/1.1 {} Scripted\r\nContent-Type: text/plain\r\nContent-Length: {}\r\nConnection: close\r\n\r\n",
+                code,
+                body.len() + 40
+            )
+            .into_bytes();
+            out.extend_from_slice(body.as_bytes());
+            Some(out)
+        }
+        Some("head_only") => Some(
+            format!(
+                "HTTP/1.1 {} Scripted\r\nContent-Type: text/plain\r\nContent-Length: {}\r\nConnection: close\r\n\r\n",
+                code,
+                body.len().max(1)
+            )
+            .into_bytes(),
+        ),
+        Some(_) => {
+            let mut out = format!(
+                "HTTP/1.1 {} Scripted\r\nContent-Type: text/plain\r\nTransfer-Encoding: chunked\r\nConnection: close\r\n\r\n{:x}\r\n",
+                code,
+                body.len()
+            )
+            .into_bytes();
+            out.extend_from_slice(body.as_bytes());
+            out.extend_from_slice(b"\r\n");
+            Some(out)
+        }
+    }
+}
+
+async fn serve_conn(mut stream: tokio::net::TcpStream, ctl: Arc<Ctl>) {
+    use tokio::io::AsyncWriteExt;
     PROGRESS.fetch_add(1, Ordering::Relaxed);
-    let method = req.method().clone();
-    let pq = req.uri().path_and_query().map(|x| x.to_string()).unwrap_or_default();
-    let ctype = req
-        .headers()
-        .get(hyper::header::CONTENT_TYPE)
-        .and_then(|v| v.to_str().ok())
-        .unwrap_or("")
-        .to_string();
-    let body = match req.into_body().collect().await {
-        Ok(b) => b.to_bytes(),
-        Err(e) => return Err(std::io::Error::new(std::io::ErrorKind::Other, e.to_string())),
+    let req = match read_request(&mut stream).await {
+        Some(r) => r,
+        None => return,
     };
-    let ok = |ct: &str, s: String| {
-        Response::builder()
-            .status(StatusCode::OK)
-            .header(hyper::header::CONTENT_TYPE, ct)
-            .body(Full::new(Bytes::from(s)))
-            .unwrap()
-    };
-    if method == hyper::Method::GET && pq.starts_with("/machine?comp=goalstate") {
+    let st = &ctl.st;
+    let pq = req.target.clone();
+    let ctype = req.headers.iter().find(|(k, _)| k == "content-type").map(|(_, v)| v.clone()).unwrap_or_default();
+    let mut out: Option<Vec<u8>> = None;
+    let mut sleep_cancel: Option<u64> = None;
+    if req.method == "GET" && pq.starts_with("/machine?comp=goalstate") {
         let (n, doc) = {
             let mut g = st.lock().unwrap();
             g.goalstate_requests += 1;
             let port = g.port;
             (g.goalstate_requests, text(&g.docs["goalstate"]).replace("##PORT##", &port.to_string()))
         };
-        if n >= 2 {
-            // the reader finished its first pass and slept through the interval: stop here
-            second_iteration.notify_one();
-            std::future::pending::<()>().await;
+        if n >= 2 && !ctl.reader_cancel.is_cancelled() {
+            // the reader finished its first pass and slept through the interval: hold this request
+            // until the driver has taken its snapshot and cancelled the reader
+            ctl.second_iteration.notify_one();
+            ctl.released.cancelled().await;
         }
-        return Ok(ok("text/xml; charset=utf-8", doc));
-    }
-    if method == hyper::Method::GET && pq.starts_with("/machine/") && pq.contains("type=sharedConfig") {
+        out = Some(complete_response(200, "text/xml; charset=utf-8", doc.as_bytes()));
+    } else if req.method == "GET" && pq.starts_with("/machine/") && pq.contains("type=sharedConfig") {
         let doc = text(&st.lock().unwrap().docs["sharedconfig"]);
-        return Ok(ok("text/xml; charset=utf-8", doc));
-    }
-    if method == hyper::Method::GET && pq.starts_with("/metadata/instance") {
+        out = Some(complete_response(200, "text/xml; charset=utf-8", doc.as_bytes()));
+    } else if req.method == "GET" && pq.starts_with("/metadata/instance") {
         let doc = text(&st.lock().unwrap().docs["imds"]);
-        return Ok(ok("application/json; charset=utf-8", doc));
-    }
-    if method == hyper::Method::POST && pq == "/machine/?comp=telemetrydata" {
-        let (answer, path) = {
+        out = Some(complete_response(200, "application/json; charset=utf-8", doc.as_bytes()));
+    } else if req.method == "POST" && pq == "/machine/?comp=telemetrydata" {
+        let (answer, path, i, spec) = {
             let mut g = st.lock().unwrap();
             let i = g.posts.len();
             let answer = g.responses.get(i).cloned().unwrap_or(json!(200));
             let path = g.posts_dir.join(format!("{}.bin", i));
-            let (a, c) = cksum(&body);
-            g.posts.push(json!({"file": path, "len": body.len(), "ck": [a, c], "content_type": ctype,
-                                "answer": answer}));
-            (answer, path)
+            let (a, c) = cksum(&req.body);
+            let after_cancel = ctl.reader_cancel.is_cancelled();
+            g.posts.push(json!({"file": path, "len": req.body.len(), "ck": [a, c], "content_type": ctype,
+                                "answer": answer, "after_cancel": after_cancel}));
+            (answer, path, i, g.cancel_spec.clone())
         };
-        let _ = std::fs::write(&path, &body);
-        return match answer.as_u64() {
-            Some(code) => Ok(Response::builder()
-                .status(StatusCode::from_u16(code as u16).unwrap_or(StatusCode::INTERNAL_SERVER_ERROR))
-                .body(Full::new(Bytes::new()))
-                .unwrap()),
-            // "drop": close the connection without a response
-            None => Err(std::io::Error::new(std::io::ErrorKind::Other, "scripted drop")),
-        };
+        let _ = std::fs::write(&path, &req.body);
+        // cancellation points of the scenario: the stop signal of the service arrives ...
+        if spec["n"].as_u64() == Some(i as u64) && !ctl.reader_cancel.is_cancelled() {
+            match spec["at"].as_str() {
+                // ... when the host has the batch and is about to answer / has decided its answer
+                Some("arrival") | Some("answer") => {
+                    st.lock().unwrap().cancel_fired_at_post = Some(i);
+                    ctl.reader_cancel.cancel();
+                }
+                // ... some (virtual) seconds after the answer: in the retry sleep after a failure
+                Some("sleep") => sleep_cancel = Some(spec["delay_s"].as_u64().unwrap_or(5)),
+                _ => {}
+            }
+        }
+        out = telemetry_answer_bytes(&answer);
+    } else {
+        st.lock().unwrap().other_requests.push(format!("{} {}", req.method, pq));
+        out = Some(complete_response(404, "text/plain", b""));
     }
-    st.lock().unwrap().other_requests.push(format!("{} {}", method, pq));
-    Ok(Response::builder().status(StatusCode::NOT_FOUND).body(Full::new(Bytes::new())).unwrap())
+    if let Some(bytes) = out {
+        let _ = stream.write_all(&bytes).await;
+        let _ = stream.flush().await;
+        let _ = stream.shutdown().await;
+    }
+    drop(stream);
+    if let Some(d) = sleep_cancel {
+        let ctl = ctl.clone();
+        let i = st.lock().unwrap().posts.len().saturating_sub(1);
+        tokio::spawn(async move {
+            tokio::time::sleep(Duration::from_secs(d)).await;
+            if !ctl.reader_cancel.is_cancelled() {
+                ctl.st.lock().unwrap().cancel_fired_at_post = Some(i);
+                ctl.reader_cancel.cancel();
+            }
+        });
+    }
 }
 
 async fn op_run(sc: &Value) -> Value {
@@ -293,18 +452,25 @@ async fn op_run(sc: &Value) -> Value {
         None => return json!({"ok": false, "error": "bind failed"}),
     };
     let port = listener.local_addr().unwrap().port();
+    let cancel = CancellationToken::new();
+    let cancel_mode = sc["cancel"].is_object();
     let st: Shared = Arc::new(Mutex::new(MockState {
         docs: sc["docs"].clone(),
         responses: sc["responses"].as_array().cloned().unwrap_or_default(),
         posts_dir,
         port,
+        cancel_spec: sc["cancel"].clone(),
         ..Default::default()
     }));
-    let second_iteration = Arc::new(tokio::sync::Notify::new());
+    let ctl = Arc::new(Ctl {
+        st: st.clone(),
+        second_iteration: Arc::new(tokio::sync::Notify::new()),
+        released: CancellationToken::new(),
+        reader_cancel: cancel.clone(),
+    });
     let stop = CancellationToken::new();
     let server = {
-        let st = st.clone();
-        let second_iteration = second_iteration.clone();
+        let ctl = ctl.clone();
         let stop = stop.clone();
         tokio::spawn(async move {
             loop {
@@ -312,15 +478,12 @@ async fn op_run(sc: &Value) -> Value {
                     _ = stop.cancelled() => return,
                     r = listener.accept() => {
                         if let Ok((stream, _)) = r {
-                            let st = st.clone();
-                            let second_iteration = second_iteration.clone();
+                            let ctl = ctl.clone();
                             let stop = stop.clone();
                             tokio::spawn(async move {
-                                let io = TokioIo::new(stream);
-                                let svc = service_fn(move |req| handle(st.clone(), second_iteration.clone(), req));
                                 tokio::select! {
                                     _ = stop.cancelled() => {}
-                                    _ = http1::Builder::new().serve_connection(io, svc) => {}
+                                    _ = serve_conn(stream, ctl) => {}
                                 }
                             });
                         }
@@ -330,7 +493,6 @@ async fn op_run(sc: &Value) -> Value {
         })
     };
 
-    let cancel = CancellationToken::new();
     let telemetry_state = TelemetrySharedState::start_new();
     let reader = EventReader::new(
         dir.clone(),
@@ -340,24 +502,71 @@ async fn op_run(sc: &Value) -> Value {
         telemetry_state.clone(),
         AgentStatusSharedState::start_new(),
     );
-    let reader_task = tokio::spawn(async move {
+    let mut reader_task = tokio::spawn(async move {
         reader.start(Some(Duration::from_secs(3600)), Some("127.0.0.1"), Some(port)).await;
     });
-    second_iteration.notified().await;
-    // snapshot BEFORE the reader is released: nothing of a second pass is included
-    let mut listing: Vec<String> = match std::fs::read_dir(&dir) {
-        Ok(rd) => rd.filter_map(|e| e.ok()).map(|e| e.file_name().to_string_lossy().to_string()).collect(),
-        Err(_) => vec![],
+    let list_dir = |dir: &PathBuf| {
+        let mut listing: Vec<String> = match std::fs::read_dir(dir) {
+            Ok(rd) => rd.filter_map(|e| e.ok()).map(|e| e.file_name().to_string_lossy().to_string()).collect(),
+            Err(_) => vec![],
+        };
+        listing.sort();
+        listing
     };
-    listing.sort();
-    let vm = telemetry_state.get_vm_meta_data().await.ok().flatten();
-    cancel.cancel();
-    let _ = reader_task.await;
+    // either the reader begins its second pass (no cancellation point was reached), or the
+    // scenario's cancellation point fired and start() has returned
+    let mut ended_by_cancel_point = false;
+    let mut reader_died: Option<String> = None;
+    tokio::select! {
+        _ = ctl.second_iteration.notified() => {}
+        r = &mut reader_task => {
+            ended_by_cancel_point = true;
+            match r {
+                Err(e) if e.is_panic() => {
+                    let p = e.into_panic();
+                    reader_died = Some(p.downcast_ref::<String>().cloned()
+                        .or_else(|| p.downcast_ref::<&str>().map(|s| s.to_string()))
+                        .unwrap_or_else(|| "panic".to_string()));
+                }
+                Err(e) => reader_died = Some(format!("reader task failed: {}", e)),
+                Ok(()) => {
+                    if !cancel.is_cancelled() {
+                        reader_died = Some("EventReader::start returned although it was not cancelled".to_string());
+                    }
+                }
+            }
+        }
+    }
+    if let Some(why) = reader_died {
+        stop.cancel();
+        let _ = server.await;
+        let g = st.lock().unwrap();
+        return json!({"ok": false, "panic": why, "posts": g.posts, "dir_at_end": list_dir(&dir)});
+    }
+    let listing;
+    let vm;
+    if ended_by_cancel_point {
+        // everything the host receives until the task has ended and the dust has settled
+        tokio::time::sleep(Duration::from_secs(120)).await;
+        listing = list_dir(&dir);
+        vm = telemetry_state.get_vm_meta_data().await.ok().flatten();
+        ctl.released.cancel();
+    } else {
+        // snapshot BEFORE the reader is released: nothing of a second pass is included
+        listing = list_dir(&dir);
+        vm = telemetry_state.get_vm_meta_data().await.ok().flatten();
+        cancel.cancel();
+        ctl.released.cancel();
+        let _ = (&mut reader_task).await;
+        tokio::time::sleep(Duration::from_secs(120)).await;
+    }
     stop.cancel();
     let _ = server.await;
     let g = st.lock().unwrap();
     json!({"ok": true, "posts": g.posts, "dir_after": listing, "vm": vm.as_ref().map(vm_json),
-           "goalstate_requests": g.goalstate_requests, "other_requests": g.other_requests})
+           "goalstate_requests": g.goalstate_requests, "other_requests": g.other_requests,
+           "cancel_mode": cancel_mode, "ended_by_cancel_point": ended_by_cancel_point,
+           "cancel_fired_at_post": g.cancel_fired_at_post, "dir_at_end": list_dir(&dir)})
 }
 
 pub fn main() {
